@@ -1,4 +1,4 @@
-package tlx
+package tls
 
 import "testing"
 
@@ -22,6 +22,11 @@ func TestCanonicalCRC(t *testing.T) {
 		}
 	}
 	t.Logf("%d definitions with ids, %d mismatches; api defs %d (with dormant %d)", n, bad, len(s.API(false)), len(s.API(true)))
+	for _, d := range s.Defs {
+		if d.HasID && !d.Dormant && CanonicalCRC(d.Line) != d.ID {
+			t.Errorf("canonicalisation does not reproduce the id of %s", d.Name)
+		}
+	}
 	if n < 1200 {
 		t.Fatalf("only %d definitions parsed", n)
 	}
